@@ -1374,6 +1374,10 @@ class Frame(object):
         if node.id in st.env:
             v = st.env[node.id]
             return v
+        imp = self.module.imports.get(node.id)
+        if imp is not None and imp[0] in STDLIB_CANON and (imp[1] is None and imp[0] != node.id or imp[1] not in (None, node.id, '*')):
+            # `import zlib as z` / `from zlib import MAX_WBITS as W`: the canonical dotted name
+            return Sym(imp[0] if imp[1] is None else '%s.%s' % (imp[0], imp[1]))
         if node.id in ('True', 'False', 'None'):
             return Const({'True': True, 'False': False, 'None': None}[node.id])
         r = self.prog.lookup(self.module, node.id)
@@ -1388,7 +1392,7 @@ class Frame(object):
                 pass
             if isinstance(self.module.assigns[node.id], ast.Lambda):
                 return self.ev_Lambda(self.module.assigns[node.id], State())      # NAME = lambda ...: a module-level function
-            if isinstance(self.module.assigns[node.id], (ast.Dict, ast.Tuple, ast.List, ast.Set)):
+            if isinstance(self.module.assigns[node.id], (ast.Dict, ast.Tuple, ast.List, ast.Set, ast.UnaryOp, ast.BinOp)):
                 return self.ev(self.module.assigns[node.id], State(), quiet=True)   # a module-level table (e.g. {Enum.A: ClassA, ...})
         return Sym(node.id)
 
@@ -1465,6 +1469,13 @@ class Frame(object):
         inner = av
         if isinstance(av, ast.Call) and dotted(av.func) in ('frozenset', 'set', 'tuple', 'list') and len(av.args) == 1:
             inner = av.args[0]
+        if isinstance(inner, ast.Dict) and inner.keys:
+            for c in cls.mro():
+                if name in c.attrs:
+                    fr = Frame(self.I, FunctionInfo(ast.parse('def _f(): pass').body[0], c.module, c), self.depth)
+                    dv = fr.ev(inner, State(), quiet=True)          # NAME = {Enum.A: ClassA, ...} in the class body: a lookup table
+                    return dv if isinstance(dv, DictV) else None
+            return None
         if not isinstance(inner, (ast.Set, ast.Tuple, ast.List)) or not inner.elts:
             return None
         owner = None
@@ -1884,6 +1895,15 @@ class Frame(object):
 
     def _ev_Call(self, node, st):
         func = node.func
+        if isinstance(func, ast.Name) and func.id not in st.env and func.id in self.module.imports:
+            imod, iorig = self.module.imports[func.id]
+            if iorig is not None and imod in STDLIB_CANON and iorig != '*':
+                # `from binascii import hexlify as h; h(x)` is the call binascii.hexlify(x)
+                canon = ast.Call(func=ast.Attribute(value=ast.Name(id=imod, ctx=ast.Load()), attr=iorig, ctx=ast.Load()),
+                                 args=node.args, keywords=node.keywords)
+                ast.copy_location(canon, node)
+                ast.fix_missing_locations(canon)
+                return self._ev_Call(canon, st)
         args = []
         for a in node.args:
             if isinstance(a, ast.Starred):
@@ -2131,6 +2151,9 @@ class Frame(object):
                     return Bytes([('REP', [('C', b'\x00')], a.text)])      # bytes(i), i an index of a range: i zero octets
                 if isinstance(a, Const) and isinstance(a.value, int):
                     return Bytes([('REP', [('C', b'\x00')], render(a))])
+                mz = re.match(r'^\(\[0\] \* (.+)\)$', a.text) if isinstance(a, Sym) else None
+                if mz and _balanced(mz.group(1)):
+                    return Bytes([('REP', [('C', b'\x00')], mz.group(1))])         # bytes([0] * n)
                 if isinstance(a, Sym) and re.search(r' (//|>>|<<) ', _toplevel(_strip_parens(a.text))):
                     return Bytes([('REP', [('C', b'\x00')], a.text)])      # an integer-valued expression: that many zero octets
                 return Bytes([('SYM', a.text if isinstance(a, Sym) else render(a))])
@@ -2179,6 +2202,13 @@ class Frame(object):
             if n in ('iter', 'list', 'tuple') and len(args) == 1 and isinstance(args[0], EachV) and not kwargs:
                 record(n)
                 return args[0]
+            if n in ('list', 'tuple') and len(args) == 1 and isinstance(args[0], ListV) and not kwargs and n not in st.env:
+                record(n)
+                return ListV(list(args[0].elems), n)
+            if n == 'sum' and len(args) == 1 and not kwargs and isinstance(args[0], EachV) and len(args[0].elems) == 1 and \
+                    isinstance(args[0].elems[0], Sym) and args[0].elems[0].text == args[0].var and ' if ' not in args[0].coll:
+                record(n)
+                return Sym('sum(%s)' % args[0].coll)        # sum(x for x in coll) is sum(coll)
             if n == 'filter' and len(args) == 2 and not kwargs:
                 fv = self._filter_each(node, args, st)
                 if fv is not None:
@@ -2521,6 +2551,8 @@ OPS = {ast.Add: '+', ast.Sub: '-', ast.Mult: '*', ast.Div: '/', ast.FloorDiv: '/
        ast.LShift: '<<', ast.RShift: '>>', ast.BitOr: '|', ast.BitAnd: '&', ast.BitXor: '^', ast.MatMult: '@',
        ast.Eq: '==', ast.NotEq: '!=', ast.Lt: '<', ast.LtE: '<=', ast.Gt: '>', ast.GtE: '>=', ast.Is: 'is',
        ast.IsNot: 'is not', ast.In: 'in', ast.NotIn: 'not in'}
+
+STDLIB_CANON = {'os', 'zlib', 'bz2', 'binascii', 'hashlib', 'functools', 'operator', 'itertools'}
 
 OPERATOR_FUNCS = {'add': ast.Add, 'sub': ast.Sub, 'mul': ast.Mult, 'floordiv': ast.FloorDiv, 'mod': ast.Mod, 'lshift': ast.LShift,
                   'rshift': ast.RShift, 'or_': ast.BitOr, 'and_': ast.BitAnd, 'xor': ast.BitXor, 'pow': ast.Pow}
